@@ -11,4 +11,4 @@ case "$P" in
   *.sed) F=$(head -1 "$P" | sed 's/^# *//'); sed -i -f "$P" "$D/repo/$F" ;;
   *) (cd "$D/repo" && patch -p1 -s < "$P") ;;
 esac
-PYVC_REPO="$D/repo" "$@"
+PYVC_REPO="$D/repo" PYVC_EVIDENCE_DIR="$D/evidence" "$@"
